@@ -408,7 +408,7 @@ class Report:
         return True
 
     def flush_deferred(self):
-        if self._deferred and not self.violations:
+        if self._deferred and not any(v["found_input"] for v in self.violations):
             for v in self._deferred:
                 self.violations.append(v)
                 print("VIOLATION property=%s replay=%s no-failing-input-found" % (self.prop_id, v["replay"]))
